@@ -230,12 +230,33 @@ def conditional_pairs():
 COND_NAMED = {'XN1': ('and', [NUM, ('not', lit(1))]), 'XSA': ('and', [STR, ('not', lit('a'))])}
 
 
+def strip_bases(t):
+    """the reading of the known defect 'an Exclude result over an infinite base is materialised as Not<literals>, the base is lost':
+    Exclude<base, X> := every value except X"""
+    k = t[0]
+    if k == 'and' and any(x[0] == 'not' for x in t[1]):
+        nots = []
+        for x in t[1]:
+            if x[0] == 'not':
+                # several excluded literals come out as a UNION of negations (Not<1> | Not<2>, i.e. every value)
+                nots.append(('or', [('not', l) for l in x[1][1]]) if x[1][0] == 'or' else x)
+        return nots[0] if len(nots) == 1 else ('and', nots)
+    if k in ('or', 'and'):
+        return (k, [strip_bases(x) for x in t[1]])
+    return t
+
+
 def _cond_oracle(args):
     k, a, b = args
     env = dict(NAMED)
     env.update(COND_NAMED)
     try:
-        return k, oracle_incl(a, b, env)
+        r = oracle_incl(a, b, env)
+        # second reading (the known defect): does the decision coincide with the one for the base-less types?
+        env2 = dict(env)
+        env2.update({n: strip_bases(t) for n, t in COND_NAMED.items()})
+        r2 = oracle_incl(strip_bases(a), strip_bases(b), env2)
+        return k, (r[0], r[1], dict(r[2], defect_reading=r2[0]))
     except Exception:
         import traceback
         return k, ('unknown', 'oracle error: ' + traceback.format_exc()[-300:], {})
@@ -253,11 +274,19 @@ def conditional_layer(rep):
         # find the offending declarations one by one would be slow: report as inconclusive with the message (a panic of the frontend is C04's subject)
         rep.note_inconclusive('conditional layer: the program does not compile: ' + json.dumps({x: r.get(x) for x in ('panic', 'parse_error', 'errors')})[:300])
         return {'pairs': 0}
+    def answer(sc):
+        if sc.get('k') == 'const':
+            return sc['v']
+        if sc.get('k') == 'tpl' and len(sc.get('items', [])) == 1 and sc['items'][0].get('k') == 'const':
+            return sc['items'][0]['v']
+        return None
     got = {}
-    for v in r.get('decoders', []):
-        sc = v['schema']
-        if v['name'].startswith('R') and sc.get('k') == 'const':
-            got[int(v['name'][1:])] = sc['v']
+    import re
+    for v in r.get('validators', []):
+        m = re.search(r'name: "R(\d+)"', v['name'])
+        a = answer(v['schema'])
+        if m and a in ('y', 'n'):
+            got[int(m.group(1))] = a
     with mp.Pool(min(16, os.cpu_count() or 4)) as pool_:
         orc = dict(pool_.imap_unordered(_cond_oracle, [(k, a, b) for k, (a, b) in enumerate(pairs)], chunksize=8))
     st = {'pairs': len(pairs), 'agree': 0, 'unknown': 0, 'solver_s': 0.0}
@@ -275,12 +304,17 @@ def conditional_layer(rep):
             continue
         # replay in isolation, dev and release
         iso = [beffdrv('compile', {'files': {'entry.ts': one}, 'emit': False}, profile=pr, timeout=60) for pr in ('dev', 'release')]
-        vals = [[d['schema'].get('v') for d in x.get('decoders', []) if d['name'] == 'R'] for x in iso]
+        vals = [[answer(d['schema']) for d in x.get('validators', []) if 'name: "R"' in d['name']] for x in iso]
         if not all(v == [got[k]] for v in vals):
             rep.note_inconclusive(f'conditional disagreement for {desc} did not reproduce in isolation: {vals}')
             continue
         feats = sorted(features(a, dict(NAMED, **COND_NAMED)) | features(b, dict(NAMED, **COND_NAMED)))
         shape = ('named-' if 'XN1' in desc or 'XSA' in desc else '') + 'excluded-literals'
+        if bounds.get('defect_reading') in ('incl', 'witness') and yes == (bounds['defect_reading'] == 'incl'):
+            # the decision is the right one for the base-less reading: the known defect, not a new one
+            rep.violation('c05:conditional:exclude-result-loses-its-base-type', f'{desc}: decided {"assignable" if yes else "not assignable"}', {'cmd': 'compile', 'input': {'files': {'entry.ts': one}, 'emit': False}})
+            st['known_defect_reading'] = st.get('known_defect_reading', 0) + 1
+            continue
         if yes:
             rep.violation(f'c05:conditional:accepts:{shape}', f'the conditional type takes the true branch, but {json.dumps(w)} is a value of the first type and not of the second: {desc}',
                           {'cmd': 'compile', 'input': {'files': {'entry.ts': one}, 'emit': False}, 'witness': w})
